@@ -31,6 +31,9 @@ func (ix *index) connInfos() map[int]*connInfo {
 		return c
 	}
 	for i := range ix.tr {
+		if i >= ix.end() {
+			break // teardown is not part of the judged history
+		}
 		r := &ix.tr[i]
 		switch r.Kind {
 		case "dial":
@@ -241,8 +244,17 @@ func checkC09(ix *index, add addFn) {
 			break
 		}
 	}
-	// Connect op is op 0
-	if o := ix.ops[0]; o.ret >= 0 && o.err != "" && o.ctxErr && (firstOK < 0 || o.ret < firstOK) {
+	connOp := -1
+	for i, op := range sc.Ops {
+		if op.Kind == "connect" {
+			connOp = i
+			break
+		}
+	}
+	if connOp < 0 {
+		return
+	}
+	if o := ix.ops[connOp]; o.ret >= 0 && o.err != "" && o.ctxErr && (firstOK < 0 || o.ret < firstOK) {
 		if stopAt < 0 || o.ret < stopAt {
 			stopAt, stopWhy = o.ret, "Connect returned its context's error"
 		}
